@@ -183,9 +183,11 @@
     (hy-repr (get x 0))
     (if x.conversion f" !{x.conversion}" "")
     (if (> (len x) 1)
-      (+ " :" (if (isinstance (get x 1) hy.models.String)
-        (get x 1)
-        (hy-repr (get x 1))))
+      (+ " :" #* (gfor
+        part (cut x 1 None)
+        (if (isinstance part hy.models.String)
+          part
+          (hy-repr part))))
       "")
     "}")))
 
